@@ -9,7 +9,7 @@ for n in $names; do
   d=/verif/seeded/$n
   prop=$(python3 -c "import json;print(json.load(open('$d/meta.json'))['breaks_property'])")
   checks=$prop; [ "$n" = "C02-b" ] && checks="C01 C08"; [ "$n" = "C06-e" ] && checks="C17"
-  (cd $W && git checkout -q -- . && git clean -fdq && git checkout -q --detach $(git -C /repo rev-parse HEAD) && git apply $d/patch.diff) || { echo "$n: patch does not apply"; fail=1; continue; }
+  (cd $W && git reset -q --hard && git clean -fdq && git checkout -q --detach $(git -C /repo rev-parse HEAD) && { git apply $d/patch.diff 2>/dev/null || git apply --3way $d/patch.diff; } && git reset -q) || { echo "$n: patch does not apply"; fail=1; continue; }
   for c in $checks; do
     (cd /verif && VERIF_REPO=$W python3 check.py $c --tier quick > /tmp/seedreg_$n_$c.log 2>&1); rc=$?
     keys=$(grep -E "^  key=" /tmp/seedreg_$n_$c.log | sed 's/^  key=//' | cut -d' ' -f1 | head -2 | tr '\n' ' ')
@@ -18,5 +18,5 @@ for n in $names; do
     [ $rc -ne $want ] && { fail=1; echo "  UNEXPECTED: $n $c rc=$rc (expected $want)"; }
   done
 done
-(cd $W && git checkout -q -- . && git clean -fdq)
+(cd $W && git reset -q --hard && git clean -fdq)
 exit $fail
